@@ -853,13 +853,25 @@ example : syntaxFor [['d'], ['f', 'o', 'o', '.', 'b', 'a', 'r', '.', 's', 'a', '
     (ends in `.css`, or begins `http://`, `https://`, `//`; ASCII case-insensitively) for every
     URL of at least 5 characters, and `false` below that. -/
 theorem C13_plain_css_classification (url : List Char) :
-    isPlainCssImport url = (documentedPlainUrl url && decide (5 ≤ url.length)) := by
+    isPlainCssImport url = (documentedPlainUrl url && decide (5 ≤ utf8Len url)) := by
   unfold isPlainCssImport documentedPlainUrl
-  by_cases h : url.length < 5
-  · have : ¬ 5 ≤ url.length := by omega
+  by_cases h : utf8Len url < 5
+  · have : ¬ 5 ≤ utf8Len url := by omega
     simp [h, this]
-  · have : 5 ≤ url.length := by omega
+  · have : 5 ≤ utf8Len url := by omega
     simp [h, this]
+
+/-- a string has at least as many UTF-8 bytes as characters -/
+theorem length_le_utf8Len (s : List Char) : s.length ≤ utf8Len s := by
+  induction s with
+  | nil => simp [utf8Len]
+  | cons c cs ih =>
+    have := Char.utf8Size_pos c
+    simp only [utf8Len, List.map_cons, List.sum_cons, List.length_cons] at ih ⊢
+    omega
+
+/-- `//éa` is 4 characters but 5 bytes: the cut is on bytes. -/
+example : isPlainCssImport ['/', '/', 'é', 'a'] = true ∧ isPlainCssImport ['/', '/', 'é'] = false := by decide
 
 example : isPlainCssImport ['h', 't', 't', 'p', ':', '/', '/', 'x'] = true ∧ isPlainCssImport ['/', '/', 'a', 'b', 'c'] = true ∧
     isPlainCssImport ['a', '.', 's', 'c', 's', 's'] = false ∧ isPlainCssImport ['.', 'c', 's', 's'] = false := by decide
@@ -868,7 +880,8 @@ example : isPlainCssImport ['h', 't', 't', 'p', ':', '/', '/', 'x'] = true ∧ i
     `.css` itself and `//`-prefixed ones such as `//a` — the reference implementation makes the
     same cut. -/
 theorem C13_plain_css_short_urls (url : List Char) (hd : documentedPlainUrl url = true)
-    (hl : url.length < 5) : lower url = dotCss ∨ startsWith (lower url) slashSlash = true := by
+    (hl : utf8Len url < 5) : lower url = dotCss ∨ startsWith (lower url) slashSlash = true := by
+  have hl : url.length < 5 := Nat.lt_of_le_of_lt (length_le_utf8Len url) hl
   unfold documentedPlainUrl at hd
   have hlen : (lower url).length = url.length := by simp [lower]
   generalize lower url = l at hd hlen
@@ -894,7 +907,7 @@ theorem C13_plain_css_short_urls (url : List Char) (hd : documentedPlainUrl url 
     media/supports modifiers, or a plain URL. -/
 theorem C13_import_kind (isUrlFn hasModifiers : Bool) (url : List Char) :
     importKind isUrlFn hasModifiers url = .plainCss ↔
-      (isUrlFn = true ∨ hasModifiers = true ∨ (documentedPlainUrl url = true ∧ 5 ≤ url.length)) := by
+      (isUrlFn = true ∨ hasModifiers = true ∨ (documentedPlainUrl url = true ∧ 5 ≤ utf8Len url)) := by
   unfold importKind
   rw [C13_plain_css_classification]
   cases isUrlFn <;> cases hasModifiers <;> cases documentedPlainUrl url <;> simp
@@ -909,6 +922,424 @@ theorem C13_plain_css_no_fs_calls (af : AsFound) (fs : Fs) (importer : Path) (lp
 example : importKind false false ['a', '.', 'C', 'S', 'S'] = .plainCss := by decide
 example : importKind false true ['a'] = .plainCss := by decide
 example : importKind false false ['a', '.', 's', 'c', 's', 's'] = .sass := by decide
+
+
+/-! ### parser level: the kind of one `@import` argument, from its text -/
+
+theorem scanString_spec (q : Char) (url rest : List Char)
+    (hurl : ∀ c ∈ url, c ≠ q ∧ c ≠ '\n' ∧ c ≠ '\r' ∧ c ≠ '\\') :
+    scanString q (url ++ q :: rest) = some (url, rest) := by
+  induction url with
+  | nil => simp [scanString]
+  | cons c cs ih =>
+    obtain ⟨h1, h2, h3, h4⟩ := hurl c (by simp)
+    have := ih (fun d hd => hurl d (by simp [hd]))
+    simp [scanString, h1, h2, h3, h4, this]
+
+theorem skipWs_spec (ws after : List Char) (hws : ∀ c ∈ ws, isWs c = true)
+    (hafter : ∀ c, after.head? = some c → isWs c = false) : skipWs (ws ++ after) = after := by
+  induction ws with
+  | nil =>
+    cases after with
+    | nil => rfl
+    | cons c cs => simp [skipWs, hafter c rfl]
+  | cons c cs ih =>
+    simp [skipWs, hws c (by simp), ih (fun d hd => hws d (by simp [hd]))]
+
+/-- **import_argument_classification** (`parse_import_argument` on the text of a string argument):
+    for every argument written as a quoted string (either quote; any characters except that quote, a
+    backslash or a line break), white space, and then either nothing / a `,` / or the first character
+    of modifiers, the parser makes it a plain CSS import exactly when `importKind` says so — i.e.
+    (theorem `C13_import_kind`) when modifiers follow or the URL is a documented plain URL — and
+    otherwise a Sass import of exactly the quoted text. -/
+theorem C13_import_argument_classification (q : Char) (hq : q = '"' ∨ q = '\'') (url ws after : List Char)
+    (hurl : ∀ c ∈ url, c ≠ q ∧ c ≠ '\n' ∧ c ≠ '\r' ∧ c ≠ '\\')
+    (hws : ∀ c ∈ ws, isWs c = true)
+    (hafter : ∀ c, after.head? = some c → isWs c = false ∧ c ≠ '/') :
+    (parseImportArg (q :: (url ++ q :: (ws ++ after)))).map (·.1) =
+      some (match importKind false (hasModifiersAt after) url with
+            | .plainCss => ArgKind.plain
+            | .sass => ArgKind.sass url) := by
+  have hs := scanString_spec q url (ws ++ after) hurl
+  have hk := skipWs_spec ws after hws (fun c hc => (hafter c hc).1)
+  have hslash : (after.head? == some '/') = false := by
+    cases after with
+    | nil => rfl
+    | cons c cs => simpa using (hafter c rfl).2
+  unfold parseImportArg importKind
+  rcases hq with rfl | rfl <;>
+    (simp only [hs, hk, hslash]
+     cases hasModifiersAt after <;> cases isPlainCssImport url <;> simp)
+
+example : parseImportArg "\"a.scss\" , \"b\"".toList = some (.sass "a.scss".toList, ", \"b\"".toList) := by decide
+example : (parseImportArg "'a' screen".toList).map (·.1) = some .plain := by decide
+example : (parseImportArg "\"a.css\"".toList).map (·.1) = some .plain := by decide
+example : parseImportArgs 40 "\"a\", 'b.css', url(x) screen".toList = some [.sass ['a'], .plain, .plain] := by decide
+
+/-- **url() is never loaded**: an argument that begins with `u`/`U` is either rejected or a plain CSS
+    import, whatever follows (`parse_import_argument` takes the `parse_dynamic_url` branch). -/
+theorem C13_import_argument_url_function (c : Char) (hc : c = 'u' ∨ c = 'U') (cs : List Char)
+    (r : ArgKind × List Char) (h : parseImportArg (c :: cs) = some r) : r.1 = .plain := by
+  unfold parseImportArg at h
+  have hcu : (c == 'u' || c == 'U') = true := by rcases hc with rfl | rfl <;> decide
+  simp only [hcu, if_true] at h
+  repeat' split at h
+  all_goals first
+    | (cases h; rfl)
+    | (simp at h)
+
+example : (parseImportArg "URL(foo.scss)".toList).map (·.1) = some .plain := by decide
+
+/-! ### `find_import` on raw spellings (`.` / empty segments, trailing slash, absolute paths) -/
+
+/-- **confinement, any spelling**: every `is_file` / `is_dir` call of the search over Rust's path
+    operations is one of `candidatesR`. -/
+theorem C13_raw_confinement (fs : Fs) (cur url : Path) (lps : List Path) (fi : Bool) :
+    ∀ c ∈ traceR fs cur url lps fi, c ∈ candidatesR cur url lps fi :=
+  resolveLocs_calls fs _
+
+/-- … and outcome and call sequence depend only on the Fs's answers on those candidates. -/
+theorem C13_raw_depends_only_on_candidates (fs fs' : Fs) (cur url : Path) (lps : List Path) (fi : Bool)
+    (h : ∀ c ∈ candidatesR cur url lps fi, agreeOn fs fs' c) :
+    loadR fs cur url lps fi = loadR fs' cur url lps fi := by
+  unfold loadR loadCR
+  rw [resolveLocs_congr fs fs' _ h]
+
+/-- The result is the first existing file among the reachable candidates, in search order; the load
+    fails exactly when none of them exists. -/
+theorem C13_raw_resolve_eq_find (fs : Fs) (cur url : Path) (lps : List Path) (fi : Bool) :
+    resolveR fs cur url lps fi = ((locsR cur url lps fi).flatMap (Loc.eligible fs)).find? fs.isFile :=
+  resolveLocs_fst fs _
+
+/-- **confinement (reads), any spelling**: a load is the probes of the search followed by exactly
+    one read, of the resolved file; a failed load reads nothing. -/
+theorem C13_raw_confinement_reads (fs : Fs) (cur url : Path) (lps : List Path) (fi : Bool) :
+    loadR fs cur url lps fi =
+      match resolveR fs cur url lps fi with
+      | some p => (.loaded p (syntaxForR p), (traceR fs cur url lps fi).map .probe ++ [.read p])
+      | none => (.cantFind, (traceR fs cur url lps fi).map .probe) := by
+  unfold loadR loadCR resolveR traceR
+  cases h : (resolveLocs fs (locsR cur url lps fi)).1 <;> simp [Cache.empty, h]
+
+theorem C13_raw_no_match_is_error (fs : Fs) (cur url : Path) (lps : List Path) (fi : Bool) :
+    (loadR fs cur url lps fi).1 = .cantFind ↔
+      ∀ p ∈ (locsR cur url lps fi).flatMap (Loc.eligible fs), fs.isFile p = false := by
+  rw [C13_raw_confinement_reads, C13_raw_resolve_eq_find]
+  cases h2 : ((locsR cur url lps fi).flatMap (Loc.eligible fs)).find? fs.isFile with
+  | some p =>
+    have hp := List.find?_some h2
+    have hm := List.mem_of_find?_eq_some h2
+    constructor
+    · intro h; simp at h
+    · intro h; have := h p hm; simp [hp] at this
+  | none =>
+    have := List.find?_eq_none.mp h2
+    constructor
+    · intro _ p hp; simpa using this p hp
+    · intro _; rfl
+
+example : (loadR (fsOfR []) [['m']] [['.'], ['a']] [[['l'], []]] true).1 = .cantFind := by decide
+
+/-- P̂ (`checkLoadR`, the predicate the check evaluates on grass's own observation) holds of the
+    model's own outcome and calls. -/
+theorem C13_raw_checkLoad (fs : Fs) (cur url : Path) (lps : List Path) (fi : Bool) :
+    checkLoadR fs cur url lps fi (resolveR fs cur url lps fi) (loadR fs cur url lps fi).2 = true := by
+  have hconf := C13_raw_confinement fs cur url lps fi
+  unfold traceR at hconf
+  unfold checkLoadR loadR loadCR resolveR
+  simp only [decide_true, Bool.true_and, Bool.and_eq_true, List.all_eq_true, decide_eq_true_eq]
+  cases hr : (resolveLocs fs (locsR cur url lps fi)).1 with
+  | none =>
+    constructor
+    · intro c hc
+      simp only [List.mem_map] at hc
+      obtain ⟨q, hq, rfl⟩ := hc
+      simpa using hconf q hq
+    · simp [List.filter_map, Function.comp_def]
+  | some p =>
+    simp only [Cache.empty, List.contains_nil, Bool.false_eq_true, if_false]
+    constructor
+    · intro c hc
+      simp only [List.mem_append, List.mem_map, List.mem_singleton] at hc
+      rcases hc with ⟨q, hq, rfl⟩ | rfl
+      · simpa using hconf q hq
+      · simp
+    · simp [List.filter_append, List.filter_map, Function.comp_def]
+
+/-- `@import "a//b"` from `sub/main.scss`: the doubled slash is kept in the path itself, dropped in
+    the partial (`Path::parent`), and the in-memory Fs finds `sub/a/b.scss` under either spelling. -/
+example : (loadR (fsOfR [[['s', 'u', 'b'], ['a'], ['_', 'b', '.', 's', 'a', 's', 's']]]) [['s', 'u', 'b'], ['m']]
+    [['a'], [], ['b']] [] false).2 =
+    [.probe (.isFile [['s', 'u', 'b'], ['a'], [], ['b', '.', 's', 'a', 's', 's']]),
+     .probe (.isFile [['s', 'u', 'b'], ['a'], ['_', 'b', '.', 's', 'a', 's', 's']]),
+     .read [['s', 'u', 'b'], ['a'], ['_', 'b', '.', 's', 'a', 's', 's']]] := by decide
+
+/-- an absolute URL ignores the importing file's directory; a trailing slash keeps the name empty -/
+example : (candidatesR [['s'], ['m']] [[], ['q', '.', 's', 'c', 's', 's']] [] false) =
+    [.isFile [[], ['q', '.', 's', 'c', 's', 's']], .isFile [[], ['_', 'q', '.', 's', 'c', 's', 's']]] := by decide
+example : (candidatesR [['m']] [['x'], []] [] false).take 2 =
+    [.isFile [['x'], ['.', 's', 'a', 's', 's']], .isFile [['x'], ['_', '.', 's', 'a', 's', 's']]] := by decide
+
+/-- **first location wins, any number of load paths** (index form of `C13_load_paths_in_order`):
+    if nothing matches relative to the importing file nor in load paths `0 … i-1` and something matches
+    in load path `i`, the result is one of load path `i`'s candidates — whatever the later ones hold. -/
+theorem C13_first_location_wins_nth (fs : Fs) (hc : fs.coherent) (importer url : Path) (lps : List Path)
+    (i : Nat) (hi : i < lps.length) (fi : Bool)
+    (hrel : ∀ p ∈ (locFor .spec fi importer.dropLast url).filePaths, fs.isFile p = false)
+    (hpre : ∀ j, (hj : j < i) → ∀ p ∈ (locFor .spec fi (lps[j]'(Nat.lt_trans hj hi)) url).filePaths, fs.isFile p = false)
+    (h : ∃ p ∈ (locFor .spec fi lps[i] url).filePaths, fs.isFile p = true) :
+    ∃ r ∈ (locFor .spec fi lps[i] url).filePaths, resolve .spec fs importer url lps fi = some r := by
+  have hsplit : lps = lps.take i ++ lps[i] :: lps.drop (i + 1) := by
+    rw [List.getElem_cons_drop hi, List.take_append_drop]
+  have := C13_load_paths_in_order fs hc importer url (lps.take i) (lps.drop (i + 1)) lps[i] fi hrel
+    (by
+      intro lp' hlp' p hp
+      obtain ⟨j, hj, rfl⟩ := List.getElem_of_mem hlp'
+      have hj' : j < i := by simp at hj; omega
+      have e : (lps.take i)[j] = lps[j]'(Nat.lt_trans hj' hi) := by simp
+      rw [e] at hp
+      exact hpre j hj' p hp) h
+  rwa [← hsplit] at this
+
+example : resolve .spec (fsOf [[['k'], ['a', '.', 's', 'c', 's', 's']], [['z'], ['a', '.', 'c', 's', 's']]] [])
+    [['m']] [['a']] [[['l']], [['j']], [['k']], [['z']]] false = some [['k'], ['a', '.', 's', 'c', 's', 's']] := by decide
+
+/-! ### the raw model and the component-level model coincide on plain spellings -/
+
+/-- no empty and no `.` segment -/
+def nice (p : Path) : Prop := ∀ c ∈ p, isBlank c = false
+
+instance : DecidablePred nice := fun p => inferInstanceAs (Decidable (∀ c ∈ p, isBlank c = false))
+
+theorem isBlank_of_length (c : Comp) (h : 2 ≤ c.length) : isBlank c = false := by
+  match c, h with
+  | _ :: _ :: _, _ => simp [isBlank, dot]
+
+theorem ne_dotdot_of_length (c : Comp) (h : 3 ≤ c.length) : c ≠ dotdot := by
+  intro e; subst e; simp [dotdot] at h
+
+theorem nonempty_of_not_blank {c : Comp} (h : isBlank c = false) : c ≠ [] := by
+  intro e; subst e; simp [isBlank] at h
+
+theorem hasRootR_nice {p : Path} (h : nice p) : hasRootR p = false := by
+  unfold hasRootR
+  split
+  · have := h [] (by simp); simp [isBlank] at this
+  · rfl
+
+theorem hasCurDirR_nice {p : Path} (h : nice p) : hasCurDirR p = false := by
+  unfold hasCurDirR
+  cases p with
+  | nil => simp
+  | cons c cs =>
+    have := h c (by simp)
+    simp only [isBlank, Bool.or_eq_false_iff] at this
+    simp [this.2]
+
+theorem bodyR_nice {p : Path} (h : nice p) : bodyR p = p := by
+  simp [bodyR, prefixLenR, hasRootR_nice h, hasCurDirR_nice h]
+
+theorem stripBlank_snoc (d : Path) (n : Comp) (hn : isBlank n = false) : stripBlank (d ++ [n]) = d ++ [n] := by
+  simp [stripBlank, List.reverse_append, hn]
+
+theorem stripBlank_nice {d : Path} (h : nice d) : stripBlank d = d := by
+  rcases List.eq_nil_or_concat d with rfl | ⟨d', n, rfl⟩
+  · rfl
+  · simpa using stripBlank_snoc d' n (h n (by simp))
+
+theorem nice_left {d : Path} {n : Comp} (h : nice (d ++ [n])) : nice d := fun c hc => h c (by simp [hc])
+theorem nice_last {d : Path} {n : Comp} (h : nice (d ++ [n])) : isBlank n = false := h n (by simp)
+theorem nice_append {a b : Path} (ha : nice a) (hb : nice b) : nice (a ++ b) := by
+  intro c hc; rcases List.mem_append.mp hc with h | h
+  · exact ha c h
+  · exact hb c h
+
+theorem lastRealR_snoc {d : Path} {n : Comp} (h : nice (d ++ [n])) : lastRealR (d ++ [n]) = some (d, n) := by
+  simp [lastRealR, bodyR_nice h, stripBlank_snoc d n (nice_last h)]
+
+theorem parentR_snoc {d : Path} {n : Comp} (h : nice (d ++ [n])) : parentR (d ++ [n]) = some d := by
+  simp [parentR, lastRealR_snoc h, rebuildR, hasRootR_nice h, hasCurDirR_nice h, stripBlank_nice (nice_left h)]
+
+theorem fileNameR_snoc {d : Path} {n : Comp} (h : nice (d ++ [n])) (hn : n ≠ dotdot) :
+    fileNameR (d ++ [n]) = some n := by
+  simp [fileNameR, lastRealR_snoc h, hn]
+
+theorem joinR_nice {a b : Path} (ha : nice a) (hb : nice b) (hne : b ≠ []) : joinR a b = a ++ b := by
+  unfold joinR
+  rw [hasRootR_nice hb]
+  rcases List.eq_nil_or_concat a with rfl | ⟨a', l, rfl⟩
+  · simp
+  · rw [List.concat_eq_append] at ha ⊢
+    have hl := nonempty_of_not_blank (nice_last ha)
+    have e : b.isEmpty = false := by cases b <;> simp_all
+    simp [e, hl]
+
+theorem addExtR_snoc (d : Path) (n e : Comp) : addExtR (d ++ [n]) e = d ++ [n ++ '.' :: e] := by
+  simp [addExtR]
+
+theorem tryPathR_snoc {D : Path} {m : Comp} (h : nice (D ++ [m])) (hm : m ≠ dotdot) :
+    tryPathR (D ++ [m]) = tryPath D m := by
+  have hj : joinR D [('_' :: m)] = D ++ [('_' :: m)] :=
+    joinR_nice (nice_left h) (by intro c hc; simp at hc; subst hc; exact isBlank_of_length _ (by
+      have := nonempty_of_not_blank (nice_last h); cases m <;> simp_all)) (by simp)
+  simp [tryPathR, tryPath, parentR_snoc h, fileNameR_snoc h hm, hj]
+
+theorem nice_name {D : Path} {base : Comp} (h : nice (D ++ [base])) (sfx : Comp) :
+    nice (D ++ [base ++ '.' :: sfx]) := by
+  apply nice_append (nice_left h)
+  intro c hc; simp at hc; subst hc
+  have := List.length_pos_iff.mpr (nonempty_of_not_blank (nice_last h))
+  exact isBlank_of_length _ (by simp only [List.length_append, List.length_cons]; omega)
+
+theorem name_ne_dotdot {base : Comp} (hb : base ≠ []) (sfx : Comp) (hs : sfx ≠ []) : base ++ '.' :: sfx ≠ dotdot := by
+  apply ne_dotdot_of_length
+  have h1 := List.length_pos_iff.mpr hb
+  have h2 := List.length_pos_iff.mpr hs
+  simp only [List.length_append, List.length_cons]
+  omega
+
+theorem tryPathR_ext {D : Path} {base : Comp} (h : nice (D ++ [base])) (sfx : Comp) (hs : sfx ≠ []) :
+    tryPathR (addExtR (D ++ [base]) sfx) = tryPath D (base ++ '.' :: sfx) := by
+  rw [addExtR_snoc]
+  exact tryPathR_snoc (nice_name h sfx) (name_ne_dotdot (nonempty_of_not_blank (nice_last h)) sfx hs)
+
+theorem withExtensionsR_snoc {D : Path} {base : Comp} (h : nice (D ++ [base])) (imp : Bool) :
+    withExtensionsR imp (D ++ [base]) = withExtensions .spec imp D base := by
+  have e1 := tryPathR_ext h sassExt (by decide)
+  have e2 := tryPathR_ext h scssExt (by decide)
+  have e3 := tryPathR_ext h cssExt (by decide)
+  have e4 := tryPathR_ext h (importWord ++ '.' :: sassExt) (by decide)
+  have e5 := tryPathR_ext h (importWord ++ '.' :: scssExt) (by decide)
+  have e6 := tryPathR_ext h (importWord ++ '.' :: cssExt) (by decide)
+  cases imp <;>
+    simp [withExtensionsR, withExtensions, extGroupsR, extGroups, addExt, AsFound.spec, e1, e2, e3, e4, e5, e6,
+      importDot, List.append_assoc]
+
+theorem stemExt_stem_ne_nil {n s e : Comp} (h : stemExt n = some (s, e)) : s ≠ [] := by
+  unfold stemExt at h
+  split at h
+  · rename_i s' e' _
+    split at h
+    · cases h
+    · cases h; intro e; simp_all
+  · cases h
+
+theorem explicitExt_stemExt {n s e : Comp} (h : explicitExt n = some (s, e)) :
+    stemExt n = some (s, e) ∧ isSourceExt e = true := by
+  unfold explicitExt at h
+  split at h
+  · rename_i s' e' hs
+    split at h
+    · cases h; exact ⟨hs, by assumption⟩
+    · cases h
+  · cases h
+
+theorem extension_filter (n : Comp) :
+    ((stemExt n).map (·.2)).filter isSourceExt = (explicitExt n).map (·.2) := by
+  unfold explicitExt
+  cases hs : stemExt n with
+  | none => simp
+  | some x =>
+    obtain ⟨s, e⟩ := x
+    cases he : isSourceExt e <;> simp [Option.filter, he]
+
+theorem withExtensionR_snoc {D : Path} {base stem ext : Comp} (h : nice (D ++ [base])) (hb : base ≠ dotdot)
+    (hs : stemExt base = some (stem, ext)) (e : Comp) :
+    withExtensionR (D ++ [base]) e = D ++ [stem ++ '.' :: e] := by
+  simp [withExtensionR, lastRealR_snoc h, hb, hs, prefixLenR, hasRootR_nice h, hasCurDirR_nice h]
+
+theorem explicitR_snoc {D : Path} {base stem ext : Comp} (h : nice (D ++ [base])) (hb : base ≠ dotdot)
+    (hx : explicitExt base = some (stem, ext)) (imp : Bool) :
+    explicitR imp ext (D ++ [base]) =
+      (if imp then [tryPath D (importOnlyExplicit .spec stem ext)] else []) ++ [tryPath D base] := by
+  obtain ⟨hs, _⟩ := explicitExt_stemExt hx
+  have hstem := stemExt_stem_ne_nil hs
+  have hn : nice (D ++ [stem ++ '.' :: (importWord ++ '.' :: ext)]) := by
+    apply nice_append (nice_left h)
+    intro c hc; simp at hc; subst hc
+    have := List.length_pos_iff.mpr hstem
+    exact isBlank_of_length _ (by simp only [List.length_append, List.length_cons]; omega)
+  have e1 := tryPathR_snoc hn (name_ne_dotdot hstem _ (by simp [importWord]))
+  have e2 := tryPathR_snoc h hb
+  cases imp <;>
+    simp [explicitR, withExtensionR_snoc h hb hs, importOnlyExplicit, AsFound.spec, importDot, e1, e2, List.append_assoc]
+
+/-- **the raw model is the component-level model on plain spellings**: when the importing file,
+    the URL and the load paths have no empty and no `.` segment (and the URL's last segment is not
+    `..`), `find_import` over Rust's path operations searches exactly the locations, groups and index
+    directories of the documented search — so every theorem above about `locations .spec` /
+    `resolve .spec` / `candidates .spec` is a theorem about the code as modelled on raw spellings. -/
+theorem C13_raw_agrees_on_plain_spellings (idir : Path) (iname : Comp) (udir : Path) (base : Comp)
+    (lps : List Path) (fi : Bool)
+    (hi : nice (idir ++ [iname])) (hu : nice (udir ++ [base])) (hb : base ≠ dotdot)
+    (hl : ∀ lp ∈ lps, nice lp) :
+    locsR (idir ++ [iname]) (udir ++ [base]) lps fi =
+      locations .spec (idir ++ [iname]) (udir ++ [base]) lps fi := by
+  have hne : udir ++ [base] ≠ [] := by simp
+  have hrel : joinR idir (udir ++ [base]) = (idir ++ udir) ++ [base] := by
+    rw [joinR_nice (nice_left hi) hu hne, List.append_assoc]
+  have hlp : ∀ lp ∈ lps, joinR lp (udir ++ [base]) = (lp ++ udir) ++ [base] := by
+    intro lp h; rw [joinR_nice (hl lp h) hu hne, List.append_assoc]
+  have hnrel : nice ((idir ++ udir) ++ [base]) := by
+    rw [List.append_assoc]; exact nice_append (nice_left hi) hu
+  have hnlp : ∀ lp ∈ lps, nice ((lp ++ udir) ++ [base]) := by
+    intro lp h; rw [List.append_assoc]; exact nice_append (hl lp h) hu
+  have hroot : hasRootR (udir ++ [base]) = false := hasRootR_nice hu
+  have hext : (extensionR ((idir ++ udir) ++ [base])).filter isSourceExt = (explicitExt base).map (·.2) := by
+    simp only [extensionR, fileNameR_snoc hnrel hb, Option.bind_some]
+    exact extension_filter base
+  unfold locsR locations
+  simp only [hroot, parentR_snoc hi, Option.getD_some, hrel, hext, AsFound.spec, wantsImportOnly,
+    Bool.or_false, Bool.false_and, Bool.false_eq_true, if_false, List.dropLast_concat, List.map_cons, List.map_map]
+  cases hx : explicitExt base with
+  | none =>
+    simp only [Option.map_none, List.cons.injEq]
+    refine ⟨?_, ?_⟩
+    · have hidx : nice (((idir ++ udir) ++ [base]) ++ [indexName]) :=
+        nice_append hnrel (by intro c hc; simp at hc; subst hc; decide)
+      rw [joinR_nice hnrel (by intro c hc; simp at hc; subst hc; decide) (by simp),
+        withExtensionsR_snoc hnrel, withExtensionsR_snoc hidx]
+      simp [locFor, splitLast_append, hx, AsFound.spec]
+    · apply List.map_congr_left
+      intro lp h
+      have hidx : nice (((lp ++ udir) ++ [base]) ++ [indexName]) :=
+        nice_append (hnlp lp h) (by intro c hc; simp at hc; subst hc; decide)
+      simp only [Function.comp, hlp lp h]
+      rw [joinR_nice (hnlp lp h) (by intro c hc; simp at hc; subst hc; decide) (by simp),
+        withExtensionsR_snoc (hnlp lp h), withExtensionsR_snoc hidx]
+      simp [locFor, splitLast_append, hx, AsFound.spec]
+  | some x =>
+    obtain ⟨stem, ext⟩ := x
+    simp only [Option.map_some, List.cons.injEq]
+    refine ⟨?_, ?_⟩
+    · rw [explicitR_snoc hnrel hb hx]
+      simp [locFor, splitLast_append, hx, AsFound.spec]
+    · apply List.map_congr_left
+      intro lp h
+      simp only [Function.comp, hlp lp h]
+      rw [explicitR_snoc (hnlp lp h) hb hx]
+      simp [locFor, splitLast_append, hx, AsFound.spec]
+
+/-- hence the same result, the same calls and the same candidates -/
+theorem C13_raw_resolve_eq_spec (fs : Fs) (idir : Path) (iname : Comp) (udir : Path) (base : Comp)
+    (lps : List Path) (fi : Bool)
+    (hi : nice (idir ++ [iname])) (hu : nice (udir ++ [base])) (hb : base ≠ dotdot)
+    (hl : ∀ lp ∈ lps, nice lp) :
+    resolveR fs (idir ++ [iname]) (udir ++ [base]) lps fi = resolve .spec fs (idir ++ [iname]) (udir ++ [base]) lps fi ∧
+    traceR fs (idir ++ [iname]) (udir ++ [base]) lps fi = trace .spec fs (idir ++ [iname]) (udir ++ [base]) lps fi ∧
+    candidatesR (idir ++ [iname]) (udir ++ [base]) lps fi = candidates .spec (idir ++ [iname]) (udir ++ [base]) lps fi := by
+  unfold resolveR resolve traceR trace candidatesR candidates
+  rw [C13_raw_agrees_on_plain_spellings idir iname udir base lps fi hi hu hb hl]
+  exact ⟨rfl, rfl, rfl⟩
+
+example : nice [['s', 'u', 'b'], ['m', '.', 's', 'c', 's', 's']] := by decide
+example : locsR [['s'], ['m']] [['d'], ['f', 'o', 'o', '.', 'b', 'a', 'r']] [[['l']]] true =
+    locations .spec [['s'], ['m']] [['d'], ['f', 'o', 'o', '.', 'b', 'a', 'r']] [[['l']]] true :=
+  C13_raw_agrees_on_plain_spellings [['s']] ['m'] [['d']] ['f', 'o', 'o', '.', 'b', 'a', 'r'] [[['l']]] true
+    (by decide) (by decide) (by decide) (by decide)
+/-- … and it is not the same search on other spellings: a doubled slash stays in the probe. -/
+example : candidatesR [['s'], ['m']] [['d'], [], ['n']] [] false ≠ candidates .spec [['s'], ['m']] [['d'], ['n']] [] false := by
+  decide
 
 /-! ### where the code as it stands can differ from the specification, and that it does -/
 
